@@ -132,5 +132,5 @@ def gen(seed, tier):
     stats["random_cases"] = nrand
     enum = [(p, 100000) for p in EXHAUSTIVE_QUICK]
     if tier != "quick":
-        enum += [(p, 400000) for p in EXHAUSTIVE_THOROUGH] + list(EXHAUSTIVE_PREFIX)
+        enum += [(p, 60000) for p in EXHAUSTIVE_THOROUGH] + list(EXHAUSTIVE_PREFIX)
     return cases, stats, enum
